@@ -305,6 +305,14 @@ TReaderOpen ==
             THEN {"C01_reader_differs_from_abstract_index"} ELSE {})
            \cup (IF ~ObsOK(Ev.obs) THEN {"C01_reader_views_disagree"} ELSE {}))
 
+\* a fresh reader obtained by the controller right after a root replacement
+TRootObs ==
+  /\ Step("RootObs")
+  /\ UNCHANGED <<root, fsnp, fseg, pol, inst, rd, life, cnt, tv>> /\ UNCHANGED Ghosts /\ UNCHANGED Unused
+  /\ Judge((IF DocSet(Ev.obs.docs) # Abs(applied) \/ Cardinality(Abs(applied)) # Ev.obs.count
+            THEN {"C01_reader_differs_from_abstract_index"} ELSE {})
+           \cup (IF ~ObsOK(Ev.obs) THEN {"C01_reader_views_disagree"} ELSE {}))
+
 TReaderObs ==
   /\ Step("ReaderObs")
   /\ UNCHANGED <<root, fsnp, fseg, pol, inst, rd, life, cnt, tv>> /\ UNCHANGED Ghosts /\ UNCHANGED Unused
@@ -383,7 +391,7 @@ TRecovered ==
      IN Judge((IF Ev.died THEN {"C03_recovery_crashed_the_process"} ELSE {})
               \cup (IF ~Ev.died /\ Ev.err # "" /\ cnt.snapsDone > 0 THEN {"C03_recovery_failed"} ELSE {})
               \cup (IF ~Ev.died /\ Ev.err = "" /\ ks = {} THEN {"C03_recovered_not_prefix"} ELSE {})
-              \cup (IF ~Ev.died /\ Ev.err = "" /\ ks # {} /\ Max(ks) < AckMax THEN {"C02_acked_lost"} ELSE {})
+              \cup (IF ~Ev.died /\ Ev.err = "" /\ AckMax > 0 /\ ~\E k \in ks : k >= AckMax THEN {"C02_acked_lost"} ELSE {})
               \cup (IF ~Ev.died /\ Ev.err = "" /\ Has(Ev, "docs2") /\
                        DocSet(Ev.docs2) # DocSet(Ev.docs) \cup {<<"zz", 9999, 1>>}
                     THEN {"C03_recovered_writer_rejects_batches"} ELSE {}))
@@ -401,7 +409,7 @@ TCrash ==
 TraceNext ==
   \/ TReset0 \/ TReset \/ TSkip \/ TOpenReturn \/ TOpenCall \/ TInvoke \/ TIntroBatch \/ TIntroMerge \/ TIntroPersist
   \/ TRootLoad \/ TRootNil \/ TReturn \/ TCallback \/ TPersistBegin \/ TPersistEnd \/ TLoadEnd \/ THandleClose
-  \/ TCommit \/ TRemoveEnd \/ TReaderOpen \/ TReaderObs \/ TReaderClose \/ TAsyncError \/ TPResult
+  \/ TCommit \/ TRemoveEnd \/ TReaderOpen \/ TRootObs \/ TReaderObs \/ TReaderClose \/ TAsyncError \/ TPResult
   \/ TCloseCall \/ TUnlock \/ TCloseReturn \/ TReopened \/ TStuck \/ TSecondOpen \/ TRecovered \/ TCrash
 
 TraceSpec == TraceInit /\ [][TraceNext]_tvars
